@@ -1,6 +1,7 @@
 import JSight.TreeLen
 import JSight.ByteLemmas
 import JSight.EnumEvents
+import JSight.SchemaLen
 /-!
 # C14 — Len reports exactly where an embedded JSON document ends
 
@@ -11,8 +12,12 @@ byte `x` that cannot continue the value and any `rest`: `Len = |ws0| + |render v
 document as the grammar generates it, without trailing blanks. No bound on sizes.
 `C14_enum_len`: the enum-rule scanner's `Length` (model `EnumScan.length`) of `ws [ items ] ws` is the offset
 just after the closing bracket, for every list of grammar tokens and any layout incl. line breaks.
-The schema scanner's `Len` is validated against the code (and against the property) but not proved: see
-DESIGN.md §4 C14.
+`C14_schema_len_whole`, `C14_schema_len_embedded`: the schema scanner's `Length` (model `SchemaScan.length`) of
+a plain-JSON schema, alone in the input or followed by foreign text, is the offset just after the value, for
+every value tree and layout. "Foreign" is every class except blanks, `/` and `#` (which may start an annotation
+or a comment that belongs to the schema); a byte glued directly to a number must not be able to continue it
+(`adjOk`, exact: after `0` only `.`/`e`/`E` are excluded, after an integer also digits, after a fraction digits
+and `e`/`E`). Annotated schemas: validated against the code (`c14-len`), not proved.
 -/
 namespace Props.C14
 open JsonScan
@@ -80,5 +85,21 @@ theorem C14_enum_len (pre ws0 post : List UInt8) (items : List Item)
     (hnd : (items.map itemKey).Nodup) :
     EnumScan.length (renderEnum pre ws0 items post) = .ok (pre.length + 1 + ws0.length + (renderItems items).length) :=
   enum_length pre ws0 post items hpre hws0 hpost hv hnd
+
+/-- `Len()` of a plain-JSON schema that fills the input (trailing layout not counted) -/
+theorem C14_schema_len_whole (v : SchemaScan.Tree) (hv : v.Valid) (ws0 ws1 : List SchemaScan.Cls)
+    (h0 : SchemaScan.IsWs ws0) (h1 : SchemaScan.IsWs ws1)
+    (bs : List UInt8) (hbs : bs.map SchemaScan.classify = ws0 ++ (v.render ++ ws1)) :
+    SchemaScan.length bs = .ok (ws0.length + v.render.length) :=
+  SchemaScan.C14_schema_len_whole v hv ws0 ws1 h0 h1 bs hbs
+
+/-- `Len()` of a plain-JSON schema embedded in other text -/
+theorem C14_schema_len_embedded (v : SchemaScan.Tree) (hv : v.Valid) (ws0 w : List SchemaScan.Cls)
+    (h0 : SchemaScan.IsWs ws0) (hw : SchemaScan.IsWs w)
+    (x : SchemaScan.Cls) (rest : List SchemaScan.Cls) (hx : x.isForeign = true)
+    (hadj : w = [] → SchemaScan.adjOk v.endSt x = true)
+    (bs : List UInt8) (hbs : bs.map SchemaScan.classify = ws0 ++ (v.render ++ (w ++ x :: rest))) :
+    SchemaScan.length bs = .ok (ws0.length + v.render.length) :=
+  SchemaScan.C14_schema_len_embedded v hv ws0 w h0 hw x rest hx hadj bs hbs
 
 end Props.C14
